@@ -101,3 +101,69 @@ class colour_text_conformance:
         # including var(--colorN, c) and currentColor
         "text-denotes-the-colour": lambda result: result["same"],
     }
+
+
+# ---- Paint.from_ot on transform paints: the field mapping otTables -> nanoemoji Paint ----
+#
+# `_colr_v1_paint_to_svg` reads every transform paint through Paint.from_ot(...).gettransform();
+# its contracts summarise from_ot as "has SOME affine".  Which affine: fontTools' own
+# Paint.getTransform of the same table (an independent implementation of the COLR text).
+
+_TRANSFORM_FORMATS = {
+    12: ("Transform",),
+    14: ("dx", "dy"),
+    16: ("scaleX", "scaleY"),
+    18: ("scaleX", "scaleY", "centerX", "centerY"),
+    20: ("scale",),
+    22: ("scale", "centerX", "centerY"),
+    24: ("angle",),
+    26: ("angle", "centerX", "centerY"),
+    28: ("xSkewAngle", "ySkewAngle"),
+    30: ("xSkewAngle", "ySkewAngle", "centerX", "centerY"),
+}
+
+
+def _gen_ot_transform(rng, i=0):
+    fmt = sorted(_TRANSFORM_FORMATS)[i % len(_TRANSFORM_FORMATS)]
+    vals = {}
+    for f in _TRANSFORM_FORMATS[fmt]:
+        if f == "Transform":
+            vals[f] = tuple(rng.choice([0.5, -0.75, 1.25, 2.0, 0.0, 1.0]) for _ in range(4)) + (rng.choice([0, 120, -37.5]), rng.choice([0, -80, 410.25]))
+        elif f in ("dx", "dy", "centerX", "centerY"):
+            vals[f] = rng.choice([0, 100, -250, 333, 12])
+        elif f.startswith("scale"):
+            vals[f] = rng.choice([0.5, 2.0, -1.0, 1.5, 0.25])
+        else:  # angles, in half turns as COLR stores them
+            vals[f] = rng.choice([0.25, -0.125, 0.5, 1 / 6, 0.03125])
+    return {"fmt": fmt, "vals": vals}
+
+
+def _from_ot_affine(fmt, vals):
+    from fontTools.ttLib.tables import otTables as ot
+    from nanoemoji.paint import Paint
+
+    p = ot.Paint()
+    p.Format = fmt
+    for k, v in vals.items():
+        if k == "Transform":
+            t = ot.Affine2x3()
+            t.xx, t.yx, t.xy, t.yy, t.dx, t.dy = v
+            v = t
+        setattr(p, k, v)
+    leaf = ot.Paint()
+    leaf.Format = 2
+    leaf.PaletteIndex, leaf.Alpha = 0, 1.0
+    p.Paint = leaf
+    return {"nanoemoji": tuple(Paint.from_ot(p).gettransform()), "fonttools": tuple(p.getTransform())}
+
+
+@contract("nanoemoji.paint.Paint.from_ot", props=["C13"])
+class paint_from_ot_transform_conformance:
+    bounded_only = True
+    gen = _gen_ot_transform
+    native_call = _from_ot_affine
+    n_quick = 60
+    n_thorough = 1500
+    ensures = {
+        "same-affine-as-the-table-denotes": lambda result: all(abs(a - b) <= 1e-9 * max(1.0, abs(b)) for a, b in zip(result["nanoemoji"], result["fonttools"])),
+    }
